@@ -11,7 +11,13 @@ GOOG == <<7, 15, 15, 7>>          GOOGL == <<7, 15, 15, 7, 12>>
 BRK == <<2, 18, 11>>              BRKB == <<2, 18, 11, 2>>
 AAA == <<1, 1, 1>>                AAB == <<1, 1, 2>>
 ZED == <<26, 5, 4>>               Z == <<26>>
-TickerSets == { {GOOG, GOOGL, AAA}, {BRK, BRKB, ZED, Z}, {AAA, AAB, GOOGL, GOOG, Z}, {GOOG, GOOGL, BRK, BRKB, AAA, AAB, ZED, Z} }
+\* long identifiers (ISIN-like, 12 letters) of one provider's funds: equal in their first 8 / 11 letters
+FUNDA == <<7, 2, 1, 1, 2, 4, 3, 18, 26, 1, 4, 5>>     \* GBAABDCRZADE
+FUNDB == <<7, 2, 1, 1, 2, 4, 3, 18, 26, 2, 5, 1>>     \* GBAABDCRZBEA
+FUNDC == <<7, 2, 1, 1, 2, 4, 3, 18, 1, 26, 26, 26>>   \* GBAABDCRAZZZ
+FUNDD == <<7, 2, 1, 1, 2, 4, 3, 18, 26, 1, 4, 6>>     \* GBAABDCRZADF
+TickerSets == { {GOOG, GOOGL, AAA}, {BRK, BRKB, ZED, Z}, {AAA, AAB, GOOGL, GOOG, Z}, {GOOG, GOOGL, BRK, BRKB, AAA, AAB, ZED, Z},
+                {FUNDA, FUNDB, FUNDC, FUNDD, AAA} }
 \* day offsets of the disposals (from 1 March 2021): two days in 2020/21, one just after 5 April, two later years
 DateSets == { {10, 40}, {10, 36, 400}, {10, 36, 37, 400, 800} }
 
@@ -32,6 +38,11 @@ ASSUME SmallSitesByEnumeration
 PrefixTieLess(a, b) == LexLess(a, b) /\ ~(SubSeq(b, 1, Len(a)) = a /\ Len(a) <= Len(b))
 BrokenComparatorDetected == ~Deterministic({GOOG, GOOGL, AAA}, PrefixTieLess)
 ASSUME BrokenComparatorDetected
+\* self-test: so is a comparator that looks at the first 8 letters only
+Head8(a) == SubSeq(a, 1, IF Len(a) < 8 THEN Len(a) ELSE 8)
+Trunc8Less(a, b) == LexLess(Head8(a), Head8(b))
+TruncatedComparatorDetected == ~Deterministic({FUNDA, FUNDB, AAA}, Trunc8Less)
+ASSUME TruncatedComparatorDetected
 
 RECURSIVE SortedSeq(_, _)
 SortedSeq(S, dummy) ==     \* ascending sequence of a set of ticker sequences under LexLess
